@@ -62,6 +62,11 @@ def strip_goal(goal):
             consts = [z3.Const(f"sk!{e.var_name(i)}!{next(_sk)}", e.var_sort(i)) for i in range(e.num_vars())]
             rec(z3.Not(z3.substitute_vars(e.body(), *reversed(consts))), hyps)
             return
+        if z3.is_not(g) and z3.is_or(g.arg(0)):
+            # not (A \/ B \/ ...)  ==  not A /\ not B /\ ...
+            for c in g.arg(0).children():
+                rec(z3.Not(c), hyps)
+            return
         if z3.is_not(g) and z3.is_and(g.arg(0)):
             # not (A /\ B /\ ...)  is proved by refuting the conjuncts taken as hypotheses
             kids = []
@@ -248,8 +253,21 @@ def classify(hyps):
     if r is not None:
         return r
     ground, quants = [], []
+    work = []
     for h in hyps:
-        for c in split_and(h):
+        work.extend(split_and(h))
+    flat = []
+    while work:
+        c = work.pop(0)
+        if z3.is_quantifier(c) and c.is_exists():
+            # existential hypothesis: name the witness
+            work = _skolemize_exists(c) + work
+        elif z3.is_not(c) and is_forall(c.arg(0)):
+            work = _skolemize_not_forall(c.arg(0)) + work
+        else:
+            flat.append(c)
+    for h in [None]:
+        for c in flat:
             if is_forall(c):
                 quants.append(c)
             elif has_quant(c):
